@@ -133,7 +133,24 @@ def cases(rng, tier):
                 yield Case(program=render(bi('ㅅㄹ', se, f)), tag='foldr', monitor='c12_expect', data=O(str(foldr(items[:-1], items[-1]))))
             else:
                 yield Case(program=render(bi('ㅅㄹ', f, se)), tag='fold-empty', monitor='c12_expect', data=E('<예외: [5, -39]>'))
-        else:
+        if rng.random() < 0.5:
+            # folds with a built-in given as the function: ㄷ concatenates in list order whichever way the fold runs
+            kk = rng.choice(['str', 'list', 'bytes'])
+            parts = [rand_seq(rng, kk, 3) for _ in range(rng.randint(0, 4))]
+            init = rand_seq(rng, kk, 2)
+            pe = bi('ㅁㄹ', *[seq_expr(kk, q) for q in parts])
+            flat = [x for q in parts for x in q]
+            yield Case(program=render(bi('ㅅㄹ', pe, seq_expr(kk, init), raw('ㄷ'))), tag='foldr-builtin-init', monitor='c12_expect',
+                       data=O(fmt_seq(kk, flat + init)))
+            yield Case(program=render(bi('ㅅㄹ', raw('ㄷ'), seq_expr(kk, init), pe)), tag='foldl-builtin-init', monitor='c12_expect',
+                       data=O(fmt_seq(kk, init + flat)))
+            if parts:
+                yield Case(program=render(bi('ㅅㄹ', pe, raw('ㄷ'))), tag='foldr-builtin', monitor='c12_expect', data=O(fmt_seq(kk, flat)))
+                yield Case(program=render(bi('ㅅㄹ', raw('ㄷ'), pe)), tag='foldl-builtin', monitor='c12_expect', data=O(fmt_seq(kk, flat)))
+                # the same through a closure wrapping ㄷ, and through ㄴㄱ-piped identity
+                f2 = fundef(bi('ㄷ', arg(0), arg(1)))
+                yield Case(program=render(bi('ㅅㄹ', pe, f2)), tag='foldr-closure-concat', monitor='c12_expect', data=O(fmt_seq(kk, flat)))
+        if kind != 'list':
             # split / join with any non-empty separator restores the original
             if kind == 'str':
                 sep = rng.choice([",", "a", "aa", " ", "가", "😀", ", ", "ab", "\u0301", "\u1161", "e", "é", "\u1100\u1161"])
